@@ -269,3 +269,138 @@ def _app():
         import appboot
         _APP = appboot.get_app(("bbb",))
     return _APP
+
+
+# ------------------------------------------------------------------ optfilter
+class _Stream:
+    """what calculate_options reads of a Stream: its defaults"""
+    def __init__(self, defaults):
+        self.defaults = defaults
+
+
+HOSTILE_ARGS = [
+    {"drm": "foo"}, {"drm": "playready,foo-pro"}, {"time": "bogus"}, {"time": "ntp"}, {"start": "12:30:45Z"},
+    {"start": "2024-01-01T00:00:00"}, {"start": "2024-03-07T08:09:10.250000"}, {"start": ""},
+    {"verr": "503="}, {"aerr": "404=5,410="}, {"vcorrupt": "abc"}, {"vcorrupt": "12,07:00:00Z"},
+    {"vcorrupt": "2024-01-01T00:00:00Z"}, {"events": "ping", "ping__count": "20000"},
+    {"events": "ping", "ping__count": "10000"}, {"events": "scte35", "scte35__timescale": "0"},
+    {"events": "ping", "ping__duration": "-1"}, {"events": "ping,scte35", "scte35__version": "2"},
+    {"ping__version": "7"}, {"events": "foo", "ping__count": "99999"}, {"leeway": "3162240001"},
+    {"leeway": "-3162240001"}, {"leeway": "3162240000"}, {"depth": "99999999999"}, {"mup": "-99999999999"},
+    {"drift": "99999999999"}, {"patch": "1"}, {"patch": "1", "timeline": "0"}, {"timeline": "0"}, {"timeline": "1"},
+    {"acodec": "ec-3"}, {"acodec": "mp4"}, {"acodec": "4a"}, {"acodec": "x"}, {"acodec": ""}, {"drm": "playready"},
+    {"drm": "none"}, {"drm": "all"}, {"mode": "live"}, {"mode": "odvod"}, {"mode": "bogus"}, {"time": "direct"},
+    {"abr": "0", "base": "0", "mup": "8", "events": "ping", "acodec": "any", "time": "xsd", "drm": "marlin-cenc"},
+    {"merr": "404=", "update": "3"}, {"terr": "404=07:00:00Z"},
+]
+
+
+def gen_stream_defaults(rng, rows):
+    sd = {}
+    for _ in range(rng.choice([1, 2, 4])):
+        r = rows[rng.randrange(len(rows))]
+        if r["kbase"] == "drmSelection" or r["cgi"] in ("mode", "start"):
+            continue
+        v = L.gen_value(r["kspec"], rng)
+        if r["kbase"] == "errorList":
+            v = [(c, p) for c, p in v if p is not None]
+        if r["pfx"] in ("ping", "scte35") and r["cgi"].endswith(("__count", "__timescale", "__duration", "__version")):
+            v = 1
+        if r["kbase"] == "intOrNone" and v is not None:
+            v = v % 100000
+        if r["pfx"]:
+            sd.setdefault(r["pfx"], {})[r["full"]] = v
+        else:
+            sd[r["full"]] = v
+    return sd
+
+
+def serve_manifest_options(mft, mode, args, stream):
+    """the option handling of ServeManifest.get between the request and ManifestContext
+    (manifest_requests.py:132-153), with the handler's own calculate_options; returns the
+    OptionsContainer or the refusal"""
+    from dashlive.server.requesthandler.manifest_requests import ServeManifest
+    try:
+        options = ServeManifest().calculate_options(
+            mode=mode, args=args, stream=stream, restrictions=mft.restrictions, features=mft.features)
+    except ValueError:
+        return "!invalidOptions"
+    if mode != 'live':
+        options.update(patch=False)
+    if options.patch and 'segmentTimeline' not in mft.features:
+        return "!patchNeedsTimeline"
+    if 'segmentTimeline' not in mft.features:
+        options.update(segmentTimeline=False)
+    elif mft.segment_timeline or options.patch:
+        options.update(segmentTimeline=True)
+    options.remove_unused_parameters(mode)
+    return options
+
+
+def run_optfilter(ctx, ch: Channel):
+    from dashlive.server import manifests as mfts
+    from dashlive.server.options.repository import OptionsRepository
+    from dashlive.server.requesthandler.media_requests import LiveMedia
+    rows, opts, _ = L.registry()
+    rng = ctx.rng("optfilter")
+    n = ctx.scale(1200, 15000)
+    glob = OptionsRepository.get_default_options()
+    keys = list(mfts.manifest_map.keys())
+    lines, meta = [], []
+    cases = []
+    for key in keys:                        # every hostile argument set on every template
+        for a in HOSTILE_ARGS:
+            cases.append((key, a, None))
+    for _ in range(n):
+        key = rng.choice(keys)
+        if rng.random() < .35:
+            args = dict(rng.choice(HOSTILE_ARGS))
+        else:
+            args = {}
+        req = gen_request(rng, rows, max_opts=8)
+        for cgi, (i, v) in req.items():
+            if cgi not in args:
+                args[cgi] = L.cgi_text_of(rows[i]["kspec"], v)
+        sd = gen_stream_defaults(rng, rows) if rng.random() < .3 else None
+        cases.append((key, args, sd))
+    for key, args, sd in cases:
+        mft = mfts.manifest_map[key]
+        mode = rng.choice(["live", "vod", "odvod"])
+        stream = _Stream(sd)
+        defaults = glob.clone(**sd) if sd is not None else glob
+        dspec = container_spec(rows, defaults)
+        aspec = ";".join(f"{L.hx(k)}={L.hx(v)}" for k, v in args.items()) or "-"
+        case = {"manifest": key, "mode": mode, "args": args, "stream_defaults": repr(sd) if sd else None}
+        try:
+            real = serve_manifest_options(mft, mode, args, stream)
+            impl = real if isinstance(real, str) else container_spec(rows, real)
+        except Exception as e:
+            impl = L.exc_name(e)
+        lines.append(f"optserve {key} {L.hx(mode)} {dspec} {aspec}")
+        meta.append(("serve", impl, case))
+        try:
+            m = LiveMedia().calculate_options(mode, args, stream)
+            impl2 = container_spec(rows, m)
+        except ValueError:
+            impl2 = "!valueError"
+        except Exception as e:
+            impl2 = L.exc_name(e)
+        lines.append(f"optcalc {L.hx(mode)} {dspec} {aspec}")
+        meta.append(("calc", impl2, case))
+    try:
+        model = common.run_driver(lines)
+    except Exception as e:
+        ch.errors.append(f"driver: {e}")
+        model = ["driver-error"] * len(lines)
+    for (what, impl, case), mo in zip(meta, model):
+        ch.evaluations += 1
+        ch.count(f"{what}:{case['manifest']}")
+        ch.count(f"{what}:result:" + (impl if impl.startswith("!") else "options"))
+        for k in case["args"]:
+            ch.count(f"opt:{k}")
+        if case["args"]:
+            ch.nontrivial.add((what, case["manifest"], case["mode"], tuple(sorted(case["args"].items())),
+                               case["stream_defaults"]))
+        if mo != "driver-error" and mo != impl:
+            ch.disagreements.append({"op": what, **case, "model": mo[:1200], "impl": impl[:1200]})
+        ch.sample({"op": what, **case, "result": impl[:160]}, limit=3)
